@@ -120,6 +120,17 @@ def datagram_framer(E):
             detail='the asyncio datagram endpoint calls connection_made once: ' + detail2, finding='C17-F3', region=True)
 
 
+def twisted_fate(E):
+    """Twisted stream front-end: an exception raised by the framer leaves dataReceived (nothing swallows it), which makes the reactor drop the connection"""
+    from .C12 import Ghost, stub_framer, context
+    G = Ghost()
+    ctl = E.new('pymodbus.device.ModbusControlBlock')
+    factory = E.obj(S.TW + 'ModbusServerFactory', store=context(E), control=ctl, ignore_missing_slaves=False)
+    p = E.obj(S.TW + 'ModbusTcpProtocol', factory=factory, framer=stub_framer(E, G))
+    out = E.attempt(lambda: E.method(p, 'dataReceived', E.bytes('data', 0, 64)))
+    E.prove('C17:a-framing-error-ends-the-connection', L.Implies(G.framer_raised, not out.ok))
+
+
 def get_units():
     us = []
     for nm, fn in (('atomic.event_loop', atomic_event_loop), ('atomic.threaded', atomic_threaded), ('atomic.threaded.witness', lost_update_witness),
@@ -133,4 +144,13 @@ def get_units():
         cls = S.FRONTENDS[fe][0]
         fn = cls + ('.setup' if fe.startswith('sync') else '.connection_made' if fe.startswith('asyncio') else '.connectionMade')
         us.append(Unit('%s/fresh_framer.%s' % (PROP, fe), fresh_framer(fe), [PROP], functions=[fn]))
+    # same connection fate: on every stream front-end a framing error (any exception out of processIncomingPacket) ends that connection - the
+    # threaded handler stops, the asyncio handler closes its transport, Twisted lets the exception leave dataReceived (the reactor drops the connection)
+    from .C12 import sync_loop, asyncio_loop, twisted_entry
+    from pyvc.unit import LoopAnn
+    q = S.SY + 'ModbusConnectedRequestHandler.handle'
+    us.append(Unit('%s/fate.sync.tcp' % PROP, sync_loop('ModbusConnectedRequestHandler', tag='C17', fate='closed'), [PROP], functions=[q], loops={(q, 0): LoopAnn('serve', lambda v, j: True)}))
+    q = S.AIO + 'ModbusBaseRequestHandler.handle'
+    us.append(Unit('%s/fate.asyncio.tcp' % PROP, asyncio_loop('ModbusConnectedRequestHandler', tag='C17', fate='closed'), [PROP], functions=[q], loops={(q, 0): LoopAnn('serve', lambda v, j: True)}))
+    us.append(Unit('%s/fate.twisted.tcp' % PROP, twisted_fate, [PROP], functions=[S.TW + 'ModbusTcpProtocol.dataReceived']))
     return us
